@@ -38,13 +38,14 @@ class Path:
     conds: Tuple[Tuple[str, bool], ...] = ()
     env: Dict[str, ast.AST] = field(default_factory=dict)
     stores: Dict[str, ast.AST] = field(default_factory=dict)
+    named_stores: Dict[str, ast.AST] = field(default_factory=dict)  # same stores, the target's root name kept (object identity)
     calls: List[ast.AST] = field(default_factory=list)
     ret: object = None
     raised: Optional[str] = None
     end: Optional[ast.AST] = None
 
     def fork(self) -> "Path":
-        return Path(self.conds, dict(self.env), dict(self.stores), list(self.calls), self.ret, self.raised, self.end)
+        return Path(self.conds, dict(self.env), dict(self.stores), dict(self.named_stores), list(self.calls), self.ret, self.raised, self.end)
 
     def has(self, text_pol) -> bool:
         return text_pol in self.conds
@@ -303,6 +304,7 @@ class PathEval:
             else:
                 tt = text(self.sub(_as_load(s.target), p))
                 p.stores[tt] = ast.BinOp(left=self.sub(_as_load(s.target), p), op=clone_ast(s.op), right=v)
+                p.named_stores[self.raw_key(s.target, p)] = p.stores[tt]
             return [p]
         if isinstance(s, ast.Expr):
             v = self.sub(s.value, p)
@@ -429,6 +431,22 @@ class PathEval:
         else:
             tt = text(self.sub(_as_load(t), p))
             p.stores[tt] = v
+            p.named_stores[self.raw_key(t, p)] = v
+
+    def raw_key(self, t, p: Path) -> str:
+        """target text with indices substituted but the root variable kept"""
+        x = _as_load(t)
+        chain = []
+        cur = x
+        while isinstance(cur, (ast.Subscript, ast.Attribute)):
+            chain.append(cur)
+            cur = cur.value
+        for n in chain:
+            if isinstance(n, ast.Subscript):
+                calls_before = len(p.calls)
+                n.slice = self.sub(n.slice, p)
+                del p.calls[calls_before:]
+        return text(x)
 
 
 def _empty_container(v) -> bool:
